@@ -64,7 +64,7 @@ def classify (t : String) : Option Rt :=
 /-- what the model's `allowRetry` does for an outcome, in the vocabulary of the extracted table -/
 def armMode : Rt → String
   | .connect => "true"
-  | .write | .rhdr | .timeout | .broken => "check"
+  | .write | .writeT | .rhdr | .timeout | .broken => "check"
   | _ => "none"
 
 /-- every type named in an arm of the source's switch is classified by the model into a kind whose
@@ -72,5 +72,30 @@ def armMode : Rt → String
 def switchTableOK (tbl : List (List String × String)) : Bool :=
   (tbl.all fun arm => arm.1.all fun t => (classify t).map armMode == some arm.2) &&
   tbl.contains ([], "none")
+
+/-! ### the h2c transport's own retry (golang.org/x/net/http2, version pinned in go.mod: `shouldRetryRequest`)
+
+    func shouldRetryRequest(req, err, afterBodyWrite) (*http.Request, error) {
+        if !canRetryError(err) { return nil, err }
+        if req.Body == nil || req.Body == http.NoBody { return req, nil }
+        if req.GetBody != nil { body := req.GetBody(); newReq := *req; newReq.Body = body; return &newReq, nil }
+        if !afterBodyWrite { return req, nil }
+        return nil, fmt.Errorf("... cannot retry err after Request.Body was written ...") }
+
+    Third-party code: transcribed, not verified (trusted base).  bfe_http.Transport and bfe_fcgi.Transport
+    have no retry of their own (regenerated facts). -/
+
+inductive H2Retry where
+  | no        -- the error is returned to clusterInvoke
+  | same      -- the same request (same Body reader) is sent again on a new connection
+  | fresh     -- a copy with a fresh body from GetBody is sent
+  deriving DecidableEq
+
+def h2ShouldRetry (canRetryErr bodyNil hasGetBody afterBodyWrite : Bool) : H2Retry :=
+  if !canRetryErr then .no
+  else if bodyNil then .same
+  else if hasGetBody then .fresh
+  else if !afterBodyWrite then .same
+  else .no
 
 end BfeVerif.C08
